@@ -1128,13 +1128,9 @@ pub fn has_content(id: u64) -> bool {
     r
 }
 /// a contract stub consumes the identity of the abstract byte string whose content was requested
-pub fn take_abstract_content() -> u64 {
-    unsafe {
-        match ABSTRACT_CONTENT_TAKEN.take() {
-            Some(id) => id,
-            None => harness_bug("no abstract byte content was requested"),
-        }
-    }
+/// (None: the content handed out was concrete)
+pub fn take_abstract_content() -> Option<u64> {
+    unsafe { ABSTRACT_CONTENT_TAKEN.take() }
 }
 pub fn no_dangling_abstract_content() {
     if unsafe { ABSTRACT_CONTENT_TAKEN.is_some() } {
